@@ -194,6 +194,13 @@ class CaseSet:
         meta.setdefault('rule', rb)
         meta.setdefault('obj', o)
         return self._add('eval', '%s %s' % (hx(rb), val_sx(o)), fam, meta)
+    def evals(self, rule, o, fam, **meta):
+        """like eval, but deep-equal sub-objects of the input are one shared map value in the driver"""
+        rb = rule.encode('utf-8') if isinstance(rule, str) else rule
+        meta.setdefault('rule', rb)
+        meta.setdefault('obj', o)
+        c = self._add('evals', '%s %s' % (hx(rb), val_sx(o)), fam, meta)
+        return c
     def syntax(self, text, fam, **meta):
         tb = text.encode('utf-8') if isinstance(text, str) else text
         meta.setdefault('text', tb)
@@ -215,7 +222,7 @@ class CaseSet:
 
 def case_desc(c):
     m = c.meta
-    if c.kind == 'eval':
+    if c.kind in ('eval', 'evals'):
         return {'rule': m['rule'].decode('utf-8', 'replace'), 'object': val_desc(m['obj']), 'family': c.fam}
     if c.kind == 'syntax':
         return {'text': m['text'].decode('utf-8', 'replace'), 'family': c.fam}
